@@ -356,9 +356,83 @@ def check(ctx):
         raise core.Machinery("vacuity: outcome classes never enumerated: %s" % sorted(need - kinds))
     judge_wait(ctx, cases)
     check_wait_procs(ctx, 20000 if thorough else 2500)
+    check_popen_live(ctx)
     if thorough:
         from .. import apalache
         apalache.discharge(ctx, "WaitCore")
+
+
+# ---------------------------------------------------------------------------
+# psutil.Popen: wait() interleaved with the subprocess-level calls, real children
+# ---------------------------------------------------------------------------
+
+POPEN_SCRIPT = r"""
+import itertools, json, os, signal, subprocess, sys, time
+import psutil
+out = []
+for ending, want in (("term", -signal.SIGTERM), ("exit7", 7), ("exit0", 0)):
+    for seq in itertools.product("WPZ", repeat=3):
+        code = "import time; time.sleep(60)" if ending == "term" else "import sys; sys.exit(%d)" % want
+        p = psutil.Popen([sys.executable, "-c", code], stdout=subprocess.DEVNULL)
+        if ending == "term":
+            p.terminate()
+        # the child is left unreaped until the first call of the sequence
+        deadline = time.time() + 60
+        settled = False
+        while time.time() < deadline:
+            try:
+                if psutil.Process(p.pid).status() == psutil.STATUS_ZOMBIE:
+                    settled = True
+                    break
+            except psutil.Error:
+                break
+            time.sleep(0.005)
+        if not settled:             # (machine too slow: nothing can be said about this one)
+            p.kill()
+            p.wait()
+            out.append({"ending": ending, "want": want, "seq": "".join(seq), "obs": [], "skipped": True})
+            continue
+        obs = []
+        for op in seq:
+            try:
+                if op == "W":
+                    obs.append(["wait", p.wait()])
+                elif op == "Z":
+                    obs.append(["wait0", p.wait(timeout=0)])
+                else:
+                    obs.append(["poll", p.poll()])
+            except Exception as ex:
+                obs.append([op, "raised " + type(ex).__name__])
+        obs.append(["returncode", p.returncode])
+        out.append({"ending": ending, "want": want, "seq": "".join(seq), "obs": obs})
+print(json.dumps(out))
+"""
+
+
+def check_popen_live(ctx):
+    """'returns the same cached value on every later call' for psutil.Popen objects of real
+    children: every order of wait() / wait(0) / poll() after the child ended."""
+    import subprocess
+    env = dict(os.environ, PYTHONPATH=os.environ["VERIF_SNAPSHOT"])
+    env.pop("PYTHONHASHSEED", None)
+    p = subprocess.run(["/venv/bin/python", "-c", POPEN_SCRIPT], env=env, cwd="/", capture_output=True, text=True, timeout=600)
+    if p.returncode != 0:
+        raise core.Machinery("Popen driver failed: %s" % p.stderr[-800:])
+    recs = json.loads(p.stdout.strip().splitlines()[-1])
+    if sum(1 for r in recs if r.get("skipped")) > len(recs) // 2:
+        raise core.Machinery("Popen driver: most children never settled")
+    for r in recs:
+        if r.get("skipped"):
+            continue
+        ctx.case(("popen", r["ending"], r["seq"]))
+        wrong = [o for o in r["obs"] if o[1] != r["want"]]
+        if wrong:
+            ctx.disagree("popen:%s:%s" % (r["ending"], wrong[0][0]),
+                         "psutil.Popen of a child that %s: the calls %s answered %r; every one of them must be %r"
+                         % ({"term": "was terminated by SIGTERM", "exit7": "exited with code 7", "exit0": "exited with code 0"}[r["ending"]],
+                            r["seq"], r["obs"], r["want"]), {"popen": r})
+    ctx.cov.setdefault("replay", {})["popen-live"] = {"sequences": len(recs)}
+    ctx.cov["traces_validated_against_impl"] += len(recs)
 
 
 def main(prop, argv):
